@@ -53,6 +53,10 @@ pub enum Alpha {
     /// caches holding more than a hundred entries — the counts small constants in
     /// the code (32, 64, 128) are compared with
     Scale,
+    /// core alphabet + the 40-entry bulk append (for small chunk limits)
+    ScaleSmall,
+    /// core alphabet + the 130-entry bulk append (for chunk limits in the hundreds)
+    ScaleBig,
 }
 
 /// Legal (accepted) operations at this model state.
@@ -65,8 +69,13 @@ pub fn legal(m: &RefLog, which: Alpha) -> Vec<(&'static str, Op)> {
     let first_live = m.entries.keys().next().copied();
     let full = which == Alpha::Legal;
     let core = which != Alpha::Tiny;
-    if which == Alpha::Scale {
-        for (name, n) in [("append_bulk40", 40u64), ("append_bulk130", 130u64)] {
+    if matches!(which, Alpha::Scale | Alpha::ScaleSmall | Alpha::ScaleBig) {
+        let bulks: &[(&'static str, u64)] = match which {
+            Alpha::ScaleSmall => &[("append_bulk40", 40)],
+            Alpha::ScaleBig => &[("append_bulk130", 130)],
+            _ => &[("append_bulk40", 40), ("append_bulk130", 130)],
+        };
+        for (name, n) in bulks.iter().copied() {
             let t = last.map(|l| l.0).unwrap_or(1);
             let first = next_index(last.as_ref());
             v.push((name, Op::Append((0..n).map(|k| ent((t, first + k), 0)).collect())));
@@ -238,7 +247,7 @@ pub fn refused(m: &RefLog, level: u8) -> Vec<(&'static str, Op)> {
         }
         // long batches (300 and 1100 entries) with a lower-term entry in the middle:
         // everything before it stays, the call returns Err
-        if extended || st.last.is_none() {
+        if level >= 3 || (extended && st.last.is_none()) {
             for (name, len) in [("append_bulk300_reversal_mid", 300u64), ("append_bulk1100_reversal_mid", 1100u64)] {
                 let mut es: Vec<(LogId, String)> = (0..len).map(|k| e((t + 1, n + k), "ok")).collect();
                 let mid = (len / 2) as usize;
